@@ -417,7 +417,13 @@ impl Literal {
                 for (i, output) in bits.iter().copied().take(tag_size).enumerate() {
                     tag_number += (output as usize) << (tag_size - 1 - i);
                 }
-                let variant = &enum_def.variants[tag_number];
+                // (bits that were not produced from a value of the enum can carry any tag)
+                let Some(variant) = enum_def.variants.get(tag_number) else {
+                    return Err(EvalError::OutputTypeMismatch {
+                        expected: ty.clone(),
+                        actual_bits: bits.len(),
+                    });
+                };
                 match variant {
                     Variant::Unit(variant_name) => Ok(Literal::Enum(
                         enum_name.clone(),
